@@ -36,7 +36,7 @@ func init() {
 			return 64
 		},
 		Run:     runC15,
-		Require: []string{"compactions_effective", "segments_removed_checked", "restarts", "compacted_everything", "backups", "fd_checks", "mapping_checks", "churn_runs", "meta_files_existed_before_compaction", "fs_mem", "fs_crash", "fs_os", "fs_osmmap"},
+		Require: []string{"compactions_effective", "segments_removed_checked", "restarts", "compacted_everything", "backups", "fd_checks", "mapping_checks", "churn_runs", "legacy_named_runs", "meta_files_existed_before_compaction", "fs_mem", "fs_crash", "fs_os", "fs_osmmap"},
 	})
 }
 
@@ -102,6 +102,41 @@ func runC15(c *core.Ctx) {
 			return
 		}
 		delete(ref, string(k))
+	}
+	if c.Case%8 == 6 {
+		// a directory whose segments carry the legacy names (NNNNN.psg, no sequence id) that the library still accepts:
+		// fill a few segments, close, rename segment and meta files, reopen - compaction must remove them like any other
+		for i := 0; i < 3*nkeys && !violated; i++ {
+			put(keys[rng.Intn(nkeys)], 40+rng.Intn(100))
+		}
+		if err := db.Close(); err != nil {
+			fail("close-error-after-compaction", err.Error())
+			return
+		}
+		renamed := 0
+		for _, n := range env.ListNames(env.Dir) {
+			var id int
+			var seq uint64
+			if _, err := fmt.Sscanf(n, "%05d-%d.psg", &id, &seq); err == nil && strings.HasSuffix(n, ".psg") && int(seq) == id+1 {
+				legacy := fmt.Sprintf("%05d.psg", id)
+				if err := env.FS.Rename(filepath.Join(env.Dir, n), filepath.Join(env.Dir, legacy)); err == nil {
+					env.FS.Rename(filepath.Join(env.Dir, n+".pmt"), filepath.Join(env.Dir, legacy+".pmt"))
+					renamed++
+				}
+			}
+		}
+		db, err = env.Open(cfg)
+		if err != nil {
+			fail("reopen-error", "opening a directory with legacy-named segments: "+err.Error())
+			return
+		}
+		if st, derr := core.Dump(db, keys); derr != nil || !st.Equal(ref) {
+			fail("readback", fmt.Sprintf("contents differ after renaming segments to their legacy names: %v %s", derr, st.Diff(ref, 3)))
+			return
+		}
+		if renamed > 0 {
+			c.Stat("legacy_named_runs", 1)
+		}
 	}
 	cycles := 40 + rng.Intn(30)
 	// "lazy" runs: every session writes and ends without compacting; compaction happens first thing in the next session
